@@ -135,6 +135,14 @@ def run(ctx, chk):
     chk.floor("await points classified", n_await, 20)
     budgets(chk, crate)
     overflow(chk, crate)
+    # "returns a result or an error": a reconnect that timed out and is not reported leaves the wrapper with an empty
+    # connection slot - the exchange is then started on `None` and the call ends in a panic instead (C09-b product rule)
+    import rules_c09
+    from report import Sub
+    if not isinstance(chk, Sub):
+        sub9 = Sub(chk, "C10-c", lambda r: r == "C09-b/stream-on-live-connection")
+        rules_c09.retry(sub9, crate)
+        chk.floor("connection-slot obligations of the retry wrapper (shared with C09-b)", sub9.count, 1)
 
 
 def const_body_expr(crate, name):
